@@ -64,6 +64,7 @@ type Sim struct {
 	Panics   []string
 	Stats    map[string]int
 	draining bool
+	drainCh  chan struct{} // closed when cleanup mode starts (ends injected delays)
 
 	actorLogs map[string][]string
 	actorIdx  []string
@@ -97,6 +98,7 @@ func NewSim(t *Tape) *Sim {
 	return &Sim{
 		T:         t,
 		wake:      make(chan struct{}, 1),
+		drainCh:   make(chan struct{}),
 		h:         sha256.New(),
 		Start:     time.Now(),
 		MaxSteps:  20000,
@@ -370,14 +372,30 @@ func (s *Sim) Live() int {
 // Sleep blocks the caller for d of simulated time (durable).
 //
 //go:norace
-func (s *Sim) Sleep(d time.Duration) {
+func (s *Sim) Sleep(d time.Duration) { s.SleepOr(d, nil) }
+
+// SleepOr is Sleep that also ends when cancel is closed, and when the run
+// switches to cleanup mode. (An injected transport delay has to end when the
+// endpoint is closed, as pending I/O on a real socket does. It must not need
+// the fake clock for that: the clock only advances while every goroutine of the
+// bubble is durably blocked, and a goroutine waiting for a sync.Mutex is not.)
+//
+//go:norace
+func (s *Sim) SleepOr(d time.Duration, cancel <-chan struct{}) {
 	s.mu.Lock()
 	dr := s.draining
+	ch := s.drainCh
 	s.mu.Unlock()
 	if dr || d <= 0 {
 		return
 	}
-	time.Sleep(d)
+	t := time.NewTimer(d)
+	select {
+	case <-t.C:
+	case <-ch:
+	case <-cancel:
+	}
+	t.Stop()
 	s.kick()
 }
 
@@ -387,6 +405,10 @@ func (s *Sim) Sleep(d time.Duration) {
 func (s *Sim) Drain() {
 	s.mu.Lock()
 	s.draining = true
+	if s.drainCh != nil {
+		close(s.drainCh)
+		s.drainCh = nil
+	}
 	ps := s.parked
 	s.parked = nil
 	for _, e := range ps {
